@@ -168,6 +168,47 @@ def translate():
     return rc, out
 
 
+def coq_cone(pid):
+    """Transitive .v dependencies of Props/<pid>.v and Extract/<pid>.v (from coqdep's .Makefile.d)."""
+    ensure_makefile()
+    dpath = os.path.join(COQ, '.Makefile.d')
+    if not os.path.exists(dpath):
+        sh('make .Makefile.d', cwd=COQ, timeout=300)
+    deps = {}
+    try:
+        for line in open(dpath):
+            if ':' not in line:
+                continue
+            lhs, rhs = line.split(':', 1)
+            tg = [t for t in lhs.split() if t.endswith('.vo')]
+            if not tg:
+                continue
+            deps[tg[0]] = [d for d in rhs.split() if d.endswith('.vo')]
+    except OSError:
+        return None
+    seen = set()
+    todo = ['Props/%s.vo' % pid, 'Extract/%s.vo' % pid]
+    while todo:
+        t = todo.pop()
+        if t in seen:
+            continue
+        seen.add(t)
+        todo += deps.get(t, [])
+    return seen
+
+
+def failing_families_in_cone(pid):
+    try:
+        status = json.load(open(os.path.join(COQ, 'Gen', 'status.json')))
+    except Exception:
+        return ['<status.json unreadable>']
+    bad = [k for k, v in status.items() if v != 'ok']
+    cone = coq_cone(pid)
+    if cone is None:
+        return bad
+    return [k for k in bad if 'Gen/%s.vo' % k in cone]
+
+
 def coq_make(targets, timeout):
     ensure_makefile()
     return sh('make -j%d %s' % (NPROC, ' '.join(targets)), cwd=COQ, timeout=timeout)
@@ -719,7 +760,14 @@ class Check:
             if not self.proof_ok:
                 broken.append({'broken': 'proof obligation', 'detail': self.proof_failure})
             if not self.translate_ok:
-                broken.append({'broken': 'translator', 'detail': self.notes})
+                # a translator family that cannot read the source breaks the tie only for the
+                # properties whose Coq cone contains its Gen file (its .v then carries a failing
+                # marker, so the build of that cone fails as well)
+                bad_fams = failing_families_in_cone(pid)
+                if bad_fams:
+                    broken.append({'broken': 'translator', 'families': bad_fams, 'detail': self.notes})
+                else:
+                    self.notes.append('translator families outside this property\'s cone failed (ignored here)')
             if self.unexplained:
                 c, a, b, v = self.unexplained[0]
                 broken.append({'broken': 'correspondence', 'case': c, 'impl_output': a, 'model_output': b, 'judge': v,
